@@ -23,13 +23,13 @@ for md in sys.argv[2:]:
         cands = [c for c in re.findall(r'[A-Za-z0-9_./-]+_test\.go', head) if "_mutants" not in c]
         target = None
         for c in cands:
-            c = re.sub(r'^/tmp/w[t23]_C\d+/', '', c).lstrip('/')
+            c = re.sub(r'^/tmp/w[t234]_C\d+/', '', c).lstrip('/')
             if '/' in c and os.path.basename(c) not in ("server_test.go", "client_test.go", "observe_test.go", "blockwise_test.go"):
                 target = c
                 break
         if not target:
             # a demo that belongs into the repository root (package of the module itself)
-            stripped = [re.sub(r'^/tmp/w[t23]_C\d+/', '', c).lstrip('/') for c in cands]
+            stripped = [re.sub(r'^/tmp/w[t234]_C\d+/', '', c).lstrip('/') for c in cands]
             bare = [c for c in stripped if '/' not in c and c != "demo_test.go"]
             if bare:
                 target = os.path.basename(bare[0])
